@@ -179,13 +179,36 @@ static void drop_exchange(Plan &p, size_t c, size_t i) {
     p.ops.swap(keep);
 }
 
+// remove the bytes [a, b) of one stream, taking them out of the ops that carried them (and out of the exchange extents)
+static void delete_range(Plan &p, size_t c, int d, size_t a, size_t b) {
+    ConnPlan &cp = p.conns[c];
+    if (b > cp.stream[d].size()) b = cp.stream[d].size();
+    if (a >= b) return;
+    cp.stream[d].erase(a, b - a);
+    size_t pos = 0;
+    for (auto &op : p.ops) {
+        if (op.conn != (int) c) continue;
+        int od = (op.kind == 'Q' || op.kind == 'q') ? 0 : (op.kind == 'S' || op.kind == 's') ? 1 : -1;
+        if (od != d) continue;
+        size_t lo = pos, hi = pos + (size_t) op.n; pos = hi;
+        size_t x = std::max(lo, a), y = std::min(hi, b);
+        if (y > x) op.n -= (long) (y - x);
+    }
+    std::vector<Op> keep; for (auto &op : p.ops) if (!((op.kind == 'Q' || op.kind == 'S' || op.kind == 'q' || op.kind == 's') && op.n <= 0)) keep.push_back(op);
+    p.ops.swap(keep);
+    long n = (long) (b - a);
+    auto fix = [&](long &v) { if (v >= (long) b) v -= n; else if (v > (long) a) v = (long) a; };
+    for (auto &x : cp.xchg) { if (d == 0) { fix(x.req.a); fix(x.req.b); fix(x.req_head_end); } else { fix(x.res.a); fix(x.res.b); fix(x.res_head_end); } }
+}
+
 static int cmd_shrink(int argc, char **argv) {
     if (argc < 3) return 2;
     std::string text, err; Plan p;
     if (!read_file(argv[2], text) || !Plan::parse(text, p, err)) { fprintf(stderr, "bad plan: %s\n", err.c_str()); return 2; }
     g_target = arg_of(argc, argv, "--oracle", "");
     std::string out = arg_of(argc, argv, "--out", (std::string(argv[2]) + ".min").c_str());
-    int max_tests = atoi(arg_of(argc, argv, "--max-tests", "400").c_str());
+    int max_tests = atoi(arg_of(argc, argv, "--max-tests", "2500").c_str());
+    double t_shrink0 = now_s(), max_s = atof(arg_of(argc, argv, "--max-s", "120").c_str());   // wall clock bounds the effort only; every accepted step is re-verified
     if (!still_fails(p)) { printf("SHRINK not-reproducible tests=%d\n", g_tests); return 3; }
     bool progress = true;
     // plans of the ground-truth properties must stay inside the well-formed domain: no truncation, only
@@ -193,6 +216,7 @@ static int cmd_shrink(int argc, char **argv) {
     bool domain = p.cfg.get("wellformed", 0) != 0;
     while (progress && g_tests < max_tests) {
         progress = false;
+        if (now_s() - t_shrink0 > max_s) break;
         // 1. drop whole exchanges
         for (size_t c = 0; c < p.conns.size(); c++)
             for (size_t i = p.conns[c].xchg.size(); i-- > 0 && g_tests < max_tests;) {
@@ -203,15 +227,6 @@ static int cmd_shrink(int argc, char **argv) {
                 if (ci >= 0 && (long) i < ci) q.cfg.set("c16_connect_idx", ci - 1);
                 if (still_fails(q)) { p = q; progress = true; }
             }
-        // 2. ddmin over the op list
-        for (size_t gran = std::max<size_t>(1, p.ops.size() / 2); !domain && gran >= 1 && g_tests < max_tests; gran /= 2) {
-            for (size_t at = 0; at < p.ops.size() && g_tests < max_tests;) {
-                Plan q = p; size_t e = std::min(q.ops.size(), at + gran);
-                q.ops.erase(q.ops.begin() + (long) at, q.ops.begin() + (long) e);
-                if (!q.ops.empty() && still_fails(q)) { p = q; progress = true; } else at += gran;
-            }
-            if (gran == 1) break;
-        }
         // 3. remove cuts: merge adjacent data ops of one direction (block-wise first, then one by one)
         {
             auto mergeable = [&](const Plan &pl, size_t i) { const Op &a = pl.ops[i], &b = pl.ops[i + 1]; return (a.kind == 'Q' || a.kind == 'S') && a.kind == b.kind && a.conn == b.conn && !a.af && !b.af; };
@@ -234,6 +249,26 @@ static int cmd_shrink(int argc, char **argv) {
                 if (gran <= 1) break;
             }
         }
+        // 3b. remove cuts across the other direction: merge a data op into the previous data op of the same connection and direction
+        //     even when ops of the other direction (or of other connections) lie between them (its bytes then arrive earlier)
+        for (size_t i = 0; !domain && i < p.ops.size() && g_tests < max_tests; i++) {
+            const Op &a = p.ops[i]; if ((a.kind != 'Q' && a.kind != 'S') || a.af) continue;
+            for (;;) {
+                size_t j = i + 1; while (j < p.ops.size() && !(p.ops[j].conn == p.ops[i].conn && (p.ops[j].kind == 'Q' || p.ops[j].kind == 'S' || p.ops[j].kind == 'q' || p.ops[j].kind == 's') && ((p.ops[j].kind == 'Q' || p.ops[j].kind == 'q') == (p.ops[i].kind == 'Q')))) j++;
+                if (j >= p.ops.size() || j == i + 1 || p.ops[j].kind != p.ops[i].kind || p.ops[j].af || g_tests >= max_tests) break;
+                Plan q = p; q.ops[i].n += q.ops[j].n; q.ops.erase(q.ops.begin() + (long) j);
+                if (still_fails(q)) { p = q; progress = true; } else break;
+            }
+        }
+        // 2. ddmin over the op list (after the merges: deleting an op shifts the bytes of all later ops, merging does not)
+        for (size_t gran = std::max<size_t>(1, p.ops.size() / 2); !domain && gran >= 1 && g_tests < max_tests; gran /= 2) {
+            for (size_t at = 0; at < p.ops.size() && g_tests < max_tests;) {
+                Plan q = p; size_t e = std::min(q.ops.size(), at + gran);
+                q.ops.erase(q.ops.begin() + (long) at, q.ops.begin() + (long) e);
+                if (!q.ops.empty() && still_fails(q)) { p = q; progress = true; } else at += gran;
+            }
+            if (gran == 1) break;
+        }
         // 4. drop faults and configuration choices
         for (size_t i = p.cbs.size(); i-- > 0 && g_tests < max_tests;) { Plan q = p; q.cbs.erase(q.cbs.begin() + (long) i); if (still_fails(q)) { p = q; progress = true; } }
         {
@@ -244,6 +279,29 @@ static int cmd_shrink(int argc, char **argv) {
         for (size_t c = 0; !domain && c < p.conns.size(); c++) for (int d = 0; d < 2; d++) {
             long used = 0; for (auto &op : p.ops) if (op.conn == (int) c && ((d == 0 && (op.kind == 'Q' || op.kind == 'q')) || (d == 1 && (op.kind == 'S' || op.kind == 's')))) used += op.n;
             if (used < (long) p.conns[c].stream[d].size() && g_tests < max_tests) { Plan q = p; q.conns[c].stream[d].resize((size_t) used); if (still_fails(q)) { p = q; progress = true; } }
+        }
+    }
+    // 6. (plans without ground truth only) shrink the streams themselves: delete blocks of lines, halving the block size
+    for (size_t c = 0; !domain && c < p.conns.size(); c++) for (int d = 0; d < 2; d++) {
+        for (size_t gran = 0;;) {
+            std::vector<size_t> ls; ls.push_back(0);
+            { const Bytes &st = p.conns[c].stream[d]; for (size_t i = 0; i < st.size(); i++) if (st[i] == '\n' && i + 1 < st.size()) ls.push_back(i + 1); ls.push_back(st.size()); }
+            size_t nl = ls.size() - 1;
+            if (nl == 0) break;
+            if (gran == 0) gran = std::max<size_t>(1, nl / 2);
+            bool any = false;
+            for (size_t at = 0; at < nl && g_tests < max_tests && now_s() - t_shrink0 < max_s;) {
+                size_t e = std::min(nl, at + gran);
+                Plan q = p; delete_range(q, c, d, ls[at], ls[e]);
+                if (!q.ops.empty() && still_fails(q)) {
+                    p = q; any = true;
+                    ls.clear(); ls.push_back(0); { const Bytes &st = p.conns[c].stream[d]; for (size_t i = 0; i < st.size(); i++) if (st[i] == '\n' && i + 1 < st.size()) ls.push_back(i + 1); ls.push_back(st.size()); }
+                    nl = ls.size() - 1;
+                } else at += gran;
+            }
+            (void) any;
+            if (gran == 1 || g_tests >= max_tests || now_s() - t_shrink0 >= max_s) break;
+            gran /= 2;
         }
     }
     p.scenario = p.scenario.empty() ? "minimised" : p.scenario + "+minimised";
